@@ -422,6 +422,10 @@ type c12Case struct {
 	Mode     string   `json:"mode"` // bubble | swallow
 	Ops      []string `json:"ops"`  // op[i] is executed by frame Fi; the last one targets the precompile; empty = the EOA calls the precompile directly
 	Gas      uint64   `json:"gas,omitempty"`
+	// kind "prestate" / "prestate-sanity" (c12_prestate.go): the named pre-state, the exact call data and a readable argument list
+	Pre      string `json:"pre,omitempty"`
+	Data     string `json:"data,omitempty"`
+	ArgLabel string `json:"args,omitempty"`
 }
 
 func (c c12Case) String() string {
@@ -430,6 +434,9 @@ func (c c12Case) String() string {
 		chain = "E→F0→" + strings.Join(c.Ops, "→")
 	}
 	s := fmt.Sprintf("%s#%d %s→precompile [%s]", c.Method, c.Variant, chain, c.Mode)
+	if c.Kind == "prestate" || c.Kind == "prestate-sanity" {
+		s = fmt.Sprintf("pre-state %q: %s%s %s→precompile [%s]", c.Pre, c.Method, c.ArgLabel, chain, c.Mode)
+	}
 	if c.Kind == "low-gas" {
 		s += fmt.Sprintf(" gas=%d", c.Gas)
 	}
@@ -972,6 +979,9 @@ func (cw *c12World) replay(c c12Case) []ev.Finding {
 		}
 		return out
 	}
+	if c.Kind == "prestate" || c.Kind == "prestate-sanity" {
+		return c12PreReplay(c)
+	}
 	if c.Kind == "registry" {
 		var fs []ev.Finding
 		for _, f := range cw.registryClauses() {
@@ -1063,6 +1073,9 @@ func runC12(replay string) int {
 		budget = 900
 	}
 	run.Sharded(Shards(), func(shard, n int) {
+		// pre-state dimension (c12_prestate.go): every read-only method × arguments drawn from the special addresses of each
+		// pre-state × call chains; bounded by its own alphabet, complete whatever the time budget of the chain exploration below
+		c12PreExplore(run, shard, n)
 		dl := ev.NewDeadline(secs(budget))
 		if shard == 0 {
 			for _, f := range cw.registryClauses() {
@@ -1170,7 +1183,8 @@ func runC12(replay string) int {
 	if _, ok := run.Coverage["exhaustive"]; !ok {
 		run.Coverage["exhaustive"] = true
 	}
-	run.Coverage["rule"] = fmt.Sprintf("every opcode sequence op[0..L-1] ∈ {CALL, DELEGATECALL, CALLCODE, STATICCALL}^L for L = 0..%d (L = 0: the EOA calls the precompile directly; otherwise frame Fi executes op[i], F0 is the top frame entered by the transaction, the last opcode targets the precompile; %d sequences with ≥ 1 STATICCALL, %d without) × every method of every registered custom precompiled contract (%d methods of %d contracts read from the live registry: 2 ERC-20, staking, bech32) × 1–3 argument lists per method (chosen per caller so that the call succeeds in a normal context, plus edge cases such as zero amounts, foreign delegators, malformed input that need not succeed; %d method/argument units) × forwarders that {bubble, swallow} an inner failure; all from one prepared state (callers funded, delegated to two validators with rewards allocated, allowances from a holder). Oracle: a sequence with a STATICCALL leaves the store dump unchanged and emits no log; its twin without STATICCALL is the normal-context reference (succeeds, changes state for a writer, changes nothing for a ReadOnly() method). Plus, per state-changing method: RequireGas() > 0, direct calls with gas ∈ {0, 1, g/2, g−1} fail without effect, a direct call with exactly g succeeds and consumes gas. Plus three programs repeated as signed transactions in a committed block (abci_level_confirmation). Enumeration is depth-major (all methods at length l before length l+1); a time budget of %d s per worker may only stop the expansion: chain_length_completed is the largest L enumerated completely for every method, exhaustive tells whether that is the stated bound.",
-		maxOps, nStatic, nNormal, len(cw.methods), len(cw.w.App.CPCKeeper.GetAllCustomPrecompiledContracts(cw.root)), len(units), budget)
+	run.Coverage["prestate_evaluations"] = int(run.Counter("prestate_evm_executions"))
+	run.Coverage["rule"] = fmt.Sprintf("every opcode sequence op[0..L-1] ∈ {CALL, DELEGATECALL, CALLCODE, STATICCALL}^L for L = 0..%d (L = 0: the EOA calls the precompile directly; otherwise frame Fi executes op[i], F0 is the top frame entered by the transaction, the last opcode targets the precompile; %d sequences with ≥ 1 STATICCALL, %d without) × every method of every registered custom precompiled contract (%d methods of %d contracts read from the live registry: 2 ERC-20, staking, bech32) × 1–3 argument lists per method (chosen per caller so that the call succeeds in a normal context, plus edge cases such as zero amounts, foreign delegators, malformed input that need not succeed; %d method/argument units) × forwarders that {bubble, swallow} an inner failure; all from one prepared state (callers funded, delegated to two validators with rewards allocated, allowances from a holder). Oracle: a sequence with a STATICCALL leaves the store dump unchanged and emits no log; its twin without STATICCALL is the normal-context reference (succeeds, changes state for a writer, changes nothing for a ReadOnly() method). Plus, per state-changing method: RequireGas() > 0, direct calls with gas ∈ {0, 1, g/2, g−1} fail without effect, a direct call with exactly g succeeds and consumes gas. Plus three programs repeated as signed transactions in a committed block (abci_level_confirmation). Enumeration is depth-major (all methods at length l before length l+1); a time budget of %d s per worker may only stop the expansion: chain_length_completed is the largest L enumerated completely for every method, exhaustive tells whether that is the stated bound. PRE-STATE DIMENSION (always complete, no budget): %s",
+		maxOps, nStatic, nNormal, len(cw.methods), len(cw.w.App.CPCKeeper.GetAllCustomPrecompiledContracts(cw.root)), len(units), budget, c12PreRule(run.Thorough()))
 	return run.Finish()
 }
